@@ -56,8 +56,11 @@ def cases(seed, tier):
                 phases.append(rng.choice(PHASES))
             for ph in sorted(set(phases)):
                 derived = (rep not in funcs.NN_REPS) and rng.random() < 0.5
-                out.append({"group": "func", "functional": fname, "rep": rep, "derived": derived, "phase": ph,
-                            "debug": False, "maxpts": 8 if quick else 60, "d": rng.choice([2, 3]), "s": 0.4,
+                rg = [1, 1, 1] if rng.random() < 0.4 else [int(rng.random() < 0.6) for _ in range(3)]
+                if not any(rg):
+                    rg[rng.randrange(3)] = 1
+                out.append({"group": "func", "functional": fname, "rep": rep, "derived": derived, "phase": ph, "rg": rg,
+                            "debug": False, "maxpts": 8 if quick else 40, "d": rng.choice([2, 3]), "s": 0.4,
                             "seed": sub_seed(seed, "c10s", k)})
                 k += 1
     # debug mode on: the implementation check substitutes every tensor of an EditableModule before the functional starts
@@ -77,9 +80,14 @@ def cases(seed, tier):
                     rng = random.Random(sub_seed(seed, "c10lin", fn, method, ph, withM))
                     if quick and rng.random() < 0.4:
                         continue
-                    out.append({"group": "linop", "functional": fn, "method": method, "phase": ph, "withM": withM,
-                                "maxpts": 8 if quick else 60, "n": rng.choice([4, 6, 7]), "seed": sub_seed(seed, "c10s", k)})
+                    out.append({"group": "linop", "functional": fn, "method": method, "phase": ph, "withM": withM, "debug": False,
+                                "maxpts": 8 if quick else 40, "n": rng.choice([4, 6, 7]), "seed": sub_seed(seed, "c10s", k)})
                     k += 1
+                    if ph == "fwd" or rng.random() < 0.3:
+                        # debug mode on: the operators are checked (products evaluated) before the solver starts
+                        out.append({"group": "linop", "functional": fn, "method": method, "phase": ph, "withM": withM, "debug": True,
+                                    "maxpts": 10 if quick else 40, "n": rng.choice([4, 6]), "seed": sub_seed(seed, "c10s", k)})
+                        k += 1
     # exhaustive small histories of nested substitutions: per level {same, diff, alias}, exception raised at the innermost level or not
     for rep in ("em_flat", "em_alias", "em_container", "nn_flat", "nn_tied", "em_nn_reordered", "sib_multi_shared", "sib_single"):
         for depth in (1, 2, 3):
@@ -365,7 +373,8 @@ def _func_run(desc, fail, obs, mech, clean):
     tg = torch.Generator().manual_seed(desc["seed"])
     is_mc = fname.startswith("mcquad")
     if is_mc:
-        lv = {"f": funcs.make_leaves(d, tg, dtype), "p": funcs.make_leaves(d, tg, dtype)}
+        rg = tuple(bool(x) for x in desc.get("rg", (1, 1, 1)))
+        lv = {"f": funcs.make_leaves(d, tg, dtype, rg), "p": funcs.make_leaves(d, tg, dtype, rg)}
         spy = CoreSpy(None)
         spy_f = _SubSpy(spy, funcs.core_mcf)
         spy_p = _SubSpy(spy, funcs.core_logp)
@@ -378,7 +387,7 @@ def _func_run(desc, fail, obs, mech, clean):
             return [funcs.run_mcquad(bf, bp, d, dtype, "mh", desc["seed"])]
     else:
         F = funcs.FUNCTIONALS[fname]
-        lv = funcs.make_leaves(d, tg, dtype)
+        lv = funcs.make_leaves(d, tg, dtype, tuple(bool(x) for x in desc.get("rg", (1, 1, 1))))
         spy = CoreSpy(F.core)
         built = funcs.build(rep, spy, F.nlead, funcs.effective(lv, derived), s)
         objs = built.objs
@@ -388,9 +397,13 @@ def _func_run(desc, fail, obs, mech, clean):
             out = F.run(built, d, dtype, None)
             return list(out) if isinstance(out, (tuple, list)) else [out]
     spy.fail = fail
+    leaves = [l for l in leaves if l.requires_grad]
     snap0 = snapshot(objs)
     ntens = sum(1 for r in snap0 if r[0] == "T")
-    dbg0 = xitorch.is_debug_enabled()
+    dbg_prev = xitorch.is_debug_enabled()
+    # the flag is set globally (not through the context manager, which would repair a flag left behind by the call)
+    dbg0 = bool(desc.get("debug"))
+    xitorch.set_debug_mode(dbg0)
     label = "%s via %s, %s" % (fname, rep, "clean run" if fail is None else "user function raised at %s evaluation %d" % fail)
     raised = None
     import contextlib
@@ -398,7 +411,7 @@ def _func_run(desc, fail, obs, mech, clean):
     with PFRegistry() as reg, WarnLog():
         try:
             spy.phase = "fwd"
-            with (xitorch.enable_debug() if desc.get("debug") else contextlib.nullcontext()), contextlib.redirect_stdout(io.StringIO()):
+            with contextlib.redirect_stdout(io.StringIO()):
                 outs = forward()
             check_after(obs, mech + ":after_fwd", snap0, objs, reg, dbg0, label + " [after forward]")
             if phase != "fwd":
@@ -418,6 +431,7 @@ def _func_run(desc, fail, obs, mech, clean):
             raised = e
             if not _boom_in_chain(e):
                 if fail is None or not spy.fired:
+                    xitorch.set_debug_mode(dbg_prev)
                     if clean:
                         return None, ntens, "%s: %s" % (type(e).__name__, str(e)[:200])
                     raise HarnessBug("injected run failed before its crash point: %s: %s" % (type(e).__name__, e))
@@ -425,6 +439,7 @@ def _func_run(desc, fail, obs, mech, clean):
             else:
                 obs.count("exceptions_wrapped")
         check_after(obs, mech, snap0, objs, reg, dbg0, label)
+        xitorch.set_debug_mode(dbg_prev)
         obs.count("restore_events", reg.restores)
         obs.obs["max_substitution_depth"] = max(obs.obs.get("max_substitution_depth", 0), reg.maxdepth)
         if reg.maxdepth >= 2:
@@ -506,9 +521,11 @@ def _linop_run(desc, fail, obs, mech, clean):
     M = mk(symM, True) if desc["withM"] else None
     objs = [("A", A)] + ([("M", M)] if M is not None else [])
     snap0 = snapshot(objs)
-    dbg0 = xitorch.is_debug_enabled()
-    label = "%s(%s) with%s M, %s" % (desc["functional"], desc["method"], "" if M is not None else "out",
-                                    "clean run" if fail is None else "operator product raised at %s product %d" % fail)
+    dbg_prev = xitorch.is_debug_enabled()
+    dbg0 = bool(desc.get("debug"))
+    xitorch.set_debug_mode(dbg0)
+    label = "%s(%s) with%s M%s, %s" % (desc["functional"], desc["method"], "" if M is not None else "out", ", debug mode on" if dbg0 else "",
+                                      "clean run" if fail is None else "operator product raised at %s product %d" % fail)
     phase = desc["phase"]
     with WarnLog():
         try:
@@ -539,11 +556,13 @@ def _linop_run(desc, fail, obs, mech, clean):
         except Exception as e:
             if not _boom_in_chain(e):
                 if fail is None or not state["fired"]:
+                    xitorch.set_debug_mode(dbg_prev)
                     if clean:
                         return None, "%s: %s" % (type(e).__name__, str(e)[:200])
                     raise HarnessBug("injected run failed before its crash point: %s: %s" % (type(e).__name__, e))
                 obs.count("exceptions_replaced_by_secondary_error")
     check_after(obs, mech, snap0, objs, None, dbg0, label)
+    xitorch.set_debug_mode(dbg_prev)
     if fail is not None:
         if state["fired"]:
             obs.count("crash_points_reached")
@@ -554,7 +573,7 @@ def _linop_run(desc, fail, obs, mech, clean):
 
 
 def run_linop(desc, obs):
-    mech = "%s:%s:%s:%s" % (desc["functional"], desc["method"], "M" if desc["withM"] else "noM", desc["phase"])
+    mech = "%s:%s:%s:%s%s" % (desc["functional"], desc["method"], "M" if desc["withM"] else "noM", desc["phase"], ":debug" if desc.get("debug") else "")
     st, err = _linop_run(desc, None, obs, mech, True)
     if st is None:
         obs.skip("clean run does not complete (%s)" % err[:60])
